@@ -2,18 +2,20 @@
 """Apply every kept seeded change to /repo (one at a time, always reverted), run the quick check of
 its property and record what was reported in seeded/<name>/meta.json (detected_by)."""
 import glob, json, os, re, subprocess, sys
-names = sys.argv[1:] or [os.path.basename(os.path.dirname(p)) for p in sorted(glob.glob('/verif/seeded/*/patch.diff'))]
-assert subprocess.run(['git', '-C', '/repo', 'status', '--porcelain', '--untracked-files=no'], capture_output=True, text=True).stdout.strip() == '', '/repo not clean'
+REPO = os.environ.get('RIP_REPO', '/repo')      # a snapshot of the repository when run in the background (vp run --with-repo)
+HERE = os.path.dirname(os.path.dirname(os.path.abspath(__file__)))
+names = sys.argv[1:] or [os.path.basename(os.path.dirname(p)) for p in sorted(glob.glob(HERE + '/seeded/*/patch.diff'))]
+assert subprocess.run(['git', '-C', REPO, 'status', '--porcelain', '--untracked-files=no'], capture_output=True, text=True).stdout.strip() == '', '/repo not clean'
 summary = []
 for n in names:
-    d = '/verif/seeded/' + n
+    d = HERE + '/seeded/' + n
     meta = json.load(open(d + '/meta.json'))
     prop = meta['property']
     try:
-        subprocess.run(['git', '-C', '/repo', 'apply', d + '/patch.diff'], check=True)
-        p = subprocess.run(['./check', prop, '--tier', 'quick'], cwd='/verif', capture_output=True, text=True)
+        subprocess.run(['git', '-C', REPO, 'apply', d + '/patch.diff'], check=True)
+        p = subprocess.run(['./check', prop, '--tier', 'quick'], cwd=HERE, capture_output=True, text=True)
     finally:
-        subprocess.run(['git', '-C', '/repo', 'checkout', '--', '.'], check=True)
+        subprocess.run(['git', '-C', REPO, 'checkout', '--', '.'], check=True)
     viol = [l for l in p.stdout.split('\n') if l.startswith('VIOLATION')]
     und = [l for l in p.stdout.split('\n') if l.startswith('UNDECIDED')]
     meta['detected_by'] = dict(check='./check %s --tier quick' % prop, exit_code=p.returncode,
@@ -23,5 +25,5 @@ for n in names:
     summary.append((n, p.returncode, len(viol)))
     print(n, 'rc=%d' % p.returncode, 'violations=%d' % len(viol), (und[:1] or [''])[0][:150])
 # leave evidence of the unchanged tree behind
-for prop in sorted({json.load(open('/verif/seeded/%s/meta.json' % n))['property'] for n in names}):
-    subprocess.run(['./check', prop, '--tier', 'quick'], cwd='/verif', capture_output=True)
+for prop in sorted({json.load(open(HERE + '/seeded/%s/meta.json' % n))['property'] for n in names}):
+    subprocess.run(['./check', prop, '--tier', 'quick'], cwd=HERE, capture_output=True)
